@@ -178,33 +178,35 @@ def total_layers(ctx, pid):
                "/-- the metamodel with the documented customisation (CompletionItemKind accepts custom values) -/\ndef M : Model := customize Gen.model\n"
                f"def excludedResponses : List Name := {common.lean_list(common.lean_name(m) for m in excluded_responses(ctx))}\nend Gen\n")
     nstructs = len(re.findall(r"^def s\d+ : Struct", (ctx.work / "GenMeta.lean").read_text(), re.M))
-    llayer, llemma, limports = tableprop.sliced_all(LINK_HDR, f"{pid}Lk", "Gen.M.structures", "structCovers Gen.M Gen.env Gen.bad", 20, nstructs, f"{pid}_link_structs_chk")
-    linkmsgs = (f"{pid}LkM", LINK_HDR + f"""
+    llayer, llemma, limports = tableprop.sliced_all(LINK_HDR, "ShLk", "Gen.M.structures", "structCovers Gen.M Gen.env Gen.bad", 20, nstructs, "Sh_link_structs_chk")
+    linkmsgs = ("ShLkM", LINK_HDR + """
 /-- every request and notification class covers its JSON-RPC envelope (jsonrpc, id, method, params as the metamodel declares them) … -/
-theorem {pid}_link_requests : Gen.M.requests.all (requestCovered Gen.M Gen.env Gen.bad) = true := by decide +kernel
-theorem {pid}_link_notifications : Gen.M.notifications.all (notificationCovered Gen.M Gen.env Gen.bad) = true := by decide +kernel
+theorem Sh_link_requests : Gen.M.requests.all (requestCovered Gen.M Gen.env Gen.bad) = true := by decide +kernel
+theorem Sh_link_notifications : Gen.M.notifications.all (notificationCovered Gen.M Gen.env Gen.bad) = true := by decide +kernel
 /-- … and so does every response class, except those whose `result` annotation is excluded for an open known finding — exactly those -/
-theorem {pid}_link_responses : Gen.M.requests.all (fun r => responseCovered Gen.M Gen.env Gen.bad r != Gen.excludedResponses.contains r.method) = true := by decide +kernel
+theorem Sh_link_responses : Gen.M.requests.all (fun r => responseCovered Gen.M Gen.env Gen.bad r != Gen.excludedResponses.contains r.method) = true := by decide +kernel
 /-- the two range validators (bodies translated from validators.py on this run) accept their range -/
-theorem {pid}_link_int32 (i : Int) (h : inInt32 i = true) : (Gen.env.vld.int32 (.int i)).accepted = true := by
+theorem Sh_link_int32 (i : Int) (h : inInt32 i = true) : (Gen.env.vld.int32 (.int i)).accepted = true := by
   simp only [inInt32, Bool.and_eq_true, decide_eq_true_eq] at h
   simp [Gen.env, Gen.vldEnv, Gen.integer_validator, VR.accepted, h.1, h.2]
-theorem {pid}_link_uint31 (i : Int) (h : inUInt31 i = true) : (Gen.env.vld.uint31 (.int i)).accepted = true := by
+theorem Sh_link_uint31 (i : Int) (h : inUInt31 i = true) : (Gen.env.vld.uint31 (.int i)).accepted = true := by
   simp only [inUInt31, Bool.and_eq_true, decide_eq_true_eq] at h
   simp [Gen.env, Gen.vldEnv, Gen.uinteger_validator, VR.accepted, h.1, h.2]
 """)
     txt = (ctx.work / "GenPkg.lean").read_text()
     ncls = len(re.findall(r"^def c\d+ : Cls", txt, re.M))
-    layer, lemma, imports = tableprop.sliced_all(TOTAL_HDR, f"{pid}T1c", "Gen.env.pkg.classes", "clsOK Gen.env Gen.bad Gen.progTys", 24, ncls, f"{pid}_T1_classes_chk")
-    progs = (f"prog", TOTAL_HDR + f"""
+    layer, lemma, imports = tableprop.sliced_all(TOTAL_HDR, "ShT1c", "Gen.env.pkg.classes", "clsOK Gen.env Gen.bad Gen.progTys", 24, ncls, "Sh_T1_classes_chk")
+    progs = ("prog", TOTAL_HDR + """
 /-- every program that dispatches a union (registered hook or the disambiguator cattrs built) passes the dispatch checker -/
-theorem {pid}_T1_progs : progsOK Gen.env Gen.bad Gen.progTys = true := by decide +kernel
+theorem Sh_T1_progs : progsOK Gen.env Gen.bad Gen.progTys = true := by decide +kernel
 /-- the excluded annotations (open known findings) are real dispatch points, and the checker does reject their programs -/
-theorem {pid}_T1_excluded_are_rejected : Gen.bad.all (fun t => inU Gen.progTys t && !(progOK Gen.env [] Gen.progTys t)) = true := by decide +kernel
+theorem Sh_T1_excluded_are_rejected : Gen.bad.all (fun t => inU Gen.progTys t && !(progOK Gen.env [] Gen.progTys t)) = true := by decide +kernel
 """)
-    progs = (f"{pid}T1p", progs[1])
-    final = imports + limports + f"import {pid}T1p\nimport {pid}LkM\n" + LINK_HDR + lemma + llemma + f"""
-theorem {pid}_T1_classes : clsesOK Gen.env Gen.bad Gen.progTys = true := {pid}_T1_classes_chk
+    progs = ("ShT1p", progs[1])
+    final = imports + limports + "import ShT1p\nimport ShLkM\n" + LINK_HDR + lemma + llemma + f"""
+theorem {pid}_T1_progs : progsOK Gen.env Gen.bad Gen.progTys = true := Sh_T1_progs
+theorem {pid}_T1_excluded_are_rejected : Gen.bad.all (fun t => inU Gen.progTys t && !(progOK Gen.env [] Gen.progTys t)) = true := Sh_T1_excluded_are_rejected
+theorem {pid}_T1_classes : clsesOK Gen.env Gen.bad Gen.progTys = true := Sh_T1_classes_chk
 
 /-- **T1 on the regenerated package.**  For every annotation that passes the structural closure
     check and every JSON value with a typed reading at it (no bound on size or nesting; every union
@@ -261,13 +263,23 @@ example : (match structTy Gen.env 30 (.cls n!"OptionalVersionedTextDocumentIdent
 
 /-- the kernel-checked facts of this run, bundled -/
 theorem {pid}_checked : Checked Gen.M Gen.env Gen.bad Gen.progTys :=
-  ⟨{pid}_T1_progs, {pid}_T1_classes, {pid}_T2_classes, {pid}_T1_roots, {pid}_link_structs_chk, {pid}_link_int32, {pid}_link_uint31⟩
+  ⟨{pid}_T1_progs, {pid}_T1_classes, {pid}_T2_classes, {pid}_T1_roots, Sh_link_structs_chk, Sh_link_int32, Sh_link_uint31⟩
 
 /-- **C01 / C03 / C14 for metamodel-valid values** (the property's own quantifier): a JSON value with distinct keys that is valid
     (strictly, closed) for a metamodel type `T` round-trips at every annotation `A` of the package that covers `T`. -/
 theorem {pid}_metamodel_type (T : Ty) (A : PyTy) (n k m : Nat) (hann : annOK Gen.M Gen.env Gen.bad n T A = true)
     (hty : lightOK Gen.env Gen.bad Gen.progTys k A = true) (j : Json) (hv : validTyC Gen.M m T j = true) (hw : Wf j) :
     RoundTrips Gen.env Gen.bad A j := {pid}_checked.roundtrip_ty hann hty hv hw
+
+/-- **C02 for metamodel-valid values**: a constructor-built object (typed reading) exists, and every one serialises to the normal form, which re-structures -/
+theorem {pid}_metamodel_constructor (T : Ty) (A : PyTy) (n k m : Nat) (hann : annOK Gen.M Gen.env Gen.bad n T A = true)
+    (hty : lightOK Gen.env Gen.bad Gen.progTys k A = true) (j : Json) (hv : validTyC Gen.M m T j = true) (hw : Wf j) :
+    (∃ v r, rep Gen.env Gen.bad r A v j = true) ∧
+    ∀ v r, rep Gen.env Gen.bad r A v j = true →
+      ∃ j' m', unstruct Gen.env m' Option.none v = .ok j' ∧ (∃ k, nrel Gen.env k A j j' = true) ∧
+        ∃ v'' m'', structTy Gen.env m'' A j' = .ok v'' ∧ (∃ k, rep Gen.env Gen.bad k A v'' j' = true) ∧
+          ∃ j'' m3, unstruct Gen.env m3 Option.none v'' = .ok j'' ∧ ∃ k, nrel Gen.env k A j' j'' = true :=
+  {pid}_checked.constructor_ty hann hty hv hw
 
 /-- every structure of the metamodel -/
 theorem {pid}_metamodel_structures (s : Struct) (hs : s ∈ Gen.M.structures) (j : Json) (hv : validStructC Gen.M s j = true) (hw : Wf j) :
@@ -276,19 +288,20 @@ theorem {pid}_metamodel_structures (s : Struct) (hs : s ∈ Gen.M.structures) (j
 /-- every request, every notification, and every response except the excluded ones: the message class is the one the catalogue names -/
 theorem {pid}_metamodel_requests (r : Request) (hr : r ∈ Gen.M.requests) (j : Json) (hv : validRequestC Gen.M r j = true) (hw : Wf j) :
     ∃ e, entryOf Gen.env r.method = some e ∧ RoundTrips Gen.env Gen.bad (.cls e.req) j :=
-  {pid}_checked.roundtrip_request (List.all_eq_true.mp {pid}_link_requests r hr) hv hw
+  {pid}_checked.roundtrip_request (List.all_eq_true.mp Sh_link_requests r hr) hv hw
 theorem {pid}_metamodel_notifications (nt : Notification) (hn : nt ∈ Gen.M.notifications) (j : Json) (hv : validNotificationC Gen.M nt j = true) (hw : Wf j) :
     ∃ e, entryOf Gen.env nt.method = some e ∧ RoundTrips Gen.env Gen.bad (.cls e.req) j :=
-  {pid}_checked.roundtrip_notification (List.all_eq_true.mp {pid}_link_notifications nt hn) hv hw
+  {pid}_checked.roundtrip_notification (List.all_eq_true.mp Sh_link_notifications nt hn) hv hw
 theorem {pid}_metamodel_responses (r : Request) (hr : r ∈ Gen.M.requests) (hx : Gen.excludedResponses.contains r.method = false)
     (j : Json) (hv : validResponseC Gen.M r j = true) (hw : Wf j) :
     ∃ e rn, entryOf Gen.env r.method = some e ∧ e.resp = some rn ∧ RoundTrips Gen.env Gen.bad (.cls rn) j := by
-  have h := List.all_eq_true.mp {pid}_link_responses r hr
+  have h := List.all_eq_true.mp Sh_link_responses r hr
   rw [hx] at h
   exact {pid}_checked.roundtrip_response (by simpa using h) hv hw
 
 #print axioms {pid}_checked
 #print axioms {pid}_metamodel_type
+#print axioms {pid}_metamodel_constructor
 #print axioms {pid}_metamodel_structures
 #print axioms {pid}_metamodel_requests
 #print axioms {pid}_metamodel_notifications
@@ -305,7 +318,7 @@ theorem {pid}_metamodel_responses (r : Request) (hr : r ∈ Gen.M.requests) (hx 
 """
     names = [f"{pid}_T1_progs", f"{pid}_T1_excluded_are_rejected", f"{pid}_T1_classes", f"{pid}_structure_total", f"{pid}_T1_roots",
              f"{pid}_T2_classes", f"{pid}_unstructure_total", f"{pid}_roundtrip", f"{pid}_constructor_path",
-             f"{pid}_checked", f"{pid}_metamodel_type", f"{pid}_metamodel_structures", f"{pid}_metamodel_requests",
+             f"{pid}_checked", f"{pid}_metamodel_type", f"{pid}_metamodel_constructor", f"{pid}_metamodel_structures", f"{pid}_metamodel_requests",
              f"{pid}_metamodel_notifications", f"{pid}_metamodel_responses"]
     return [[genbad], [genlink], layer + [progs] + llayer + [linkmsgs], [(f"{pid}T1", final)]], names
 
